@@ -149,6 +149,30 @@ func c03Run(t *testing.T, sub string, keys []string, maxLen int, qb, tb time.Dur
 				for _, labels := range labelings {
 					verify("honest", L, labels, false)
 				}
+				// the same objects verified, mutated in place and verified again (state left in the proof
+				// objects by the first verification must not survive the change of a response)
+				if !c03ClassesOK(asg, nil) {
+					obj := vsCloneList(L)
+					var first bool
+					if pan, _ := vkit.Guard(func() { first = obj.Verify(pks, ctx, nonce, false, nil) }); !pan {
+						for j := 1; j < n; j++ {
+							tgt := obj[0].SecretKeyResponse()
+							switch q := obj[j].(type) {
+							case *ProofU:
+								q.SResponse = vfCopy(tgt)
+							case *ProofD:
+								q.AResponses[0] = vfCopy(tgt)
+							}
+						}
+						r.Eval()
+						r.Nontrivial(caseName + "|in-place-equalise-after-verify")
+						var second bool
+						if pan, _ := vkit.Guard(func() { second = obj.Verify(pks, ctx, nonce, false, nil) }); !pan && second {
+							r.Violate("C03|different-secrets-accepted-under-one-label|equaliser:overwrite-in-place-after-a-verification", fmt.Sprintf("%s: first verification=%v, after overwriting the secret-key responses in place the same objects are accepted", caseName, first),
+								map[string]any{"case": caseName, "equaliser": "overwrite in place after verify"})
+						}
+					}
+				}
 				// equalisers: make member j's secret-key response equal member 0's
 				resp := func(p Proof) *big.Int { return p.SecretKeyResponse() }
 				for j := 1; j < n; j++ {
